@@ -73,9 +73,6 @@ def verif_fingerprint():
                 if f.endswith((".tla", ".cfg", ".go", ".py", ".java", ".json", ".sh")):
                     h.update(f.encode())
                     h.update(open(os.path.join(root, f), "rb").read())
-    kf = os.path.join(VERIF, "known_findings.json")
-    if os.path.exists(kf):
-        h.update(open(kf, "rb").read())
     return h.hexdigest()
 
 
@@ -83,19 +80,21 @@ _built = {}
 
 
 def build_harness():
-    """rebuild the harness from /repo's current working tree (incremental)"""
+    """rebuild the harness from REPO's current working tree (incremental); one binary per REPO path"""
     fp = repo_fingerprint()
-    stamp = os.path.join(VERIF, "bin", "harness.stamp")
+    tag = hashlib.md5(REPO.encode()).hexdigest()[:8]
+    binp = os.path.join(VERIF, "bin", "harness" if REPO == "/repo" else "harness-" + tag)
+    stamp = binp + ".stamp"
     want = fp + verif_fingerprint()
-    if os.path.exists(stamp) and open(stamp).read() == want and os.path.exists(os.path.join(VERIF, "bin", "harness")):
-        return os.path.join(VERIF, "bin", "harness")
+    if os.path.exists(stamp) and open(stamp).read() == want and os.path.exists(binp):
+        return binp
     t = time.time()
     p = sh([os.path.join(VERIF, "tools", "build.sh")], timeout=1500, check=False)
-    if p.returncode != 0:
-        raise Infra("harness build failed (does /repo compile?)\n" + p.stdout[-6000:])
+    if p.returncode != 0 or not os.path.exists(binp):
+        raise Infra("harness build failed (does the repository compile?)\n" + p.stdout[-6000:])
     open(stamp, "w").write(want)
     log(f"[build] harness rebuilt in {time.time()-t:.0f}s")
-    return os.path.join(VERIF, "bin", "harness")
+    return binp
 
 
 def ensure_numclass():
@@ -148,6 +147,25 @@ def tlc_mc(d, module, cfg, workers=16, timeout=1800):
         raise Infra(f"TLC failed on {module}/{cfg}:\n" + out[-4000:])
     return {"module": module, "cfg": cfg, "states": st["distinct"], "transitions": st["generated"], "violated": viol,
             "complete": st["queue"] == 0 and not viol, "wall_s": round(time.time() - t, 1), "out": out if viol else ""}
+
+
+def tlc_lead(d, module, cfg, workers=8, timeout=900):
+    """run a configuration whose invariant is EXPECTED to be violated by the faithful model when the
+    code has a defect; returns (invariant name, behaviour = value of `hist` in the last state) or None"""
+    ce = os.path.join(d, f"ce-{cfg}.json")
+    if os.path.exists(ce):
+        os.remove(ce)
+    out, rc = tlc(d, module, cfg, workers=workers, timeout=timeout, extra=["-dumpTrace", "json", ce])
+    viol = re.findall(r"Error: Invariant (\w+) is violated", out)
+    st = tlc_stats(out)
+    if not viol:
+        if st is None or "Error:" in out:
+            raise Infra(f"TLC failed on lead config {module}/{cfg}:\n" + out[-3000:])
+        return None, st
+    j = json.load(open(ce))
+    states = j["counterexample"]["state"]
+    last = states[-1][1] if isinstance(states[-1], list) else states[-1]
+    return (viol[0], last["hist"]), st
 
 
 def tlc_simulate(d, module, cfg, num, depth, seed, timeout=900, marker="BEHAVIOUR "):
